@@ -30,6 +30,10 @@ import (
 // ErrReadonly is the error value returned by read-only blobservers.
 var ErrReadonly = errors.New("this blobserver is read only")
 
+// ErrBlobTooLarge is the error returned by Receive and ReceiveNoHash
+// when src holds more than MaxBlobSize bytes.
+var ErrBlobTooLarge = fmt.Errorf("blob over the limit of %d bytes", MaxBlobSize)
+
 // ReceiveString uploads the blob given by the string s to dst
 // and returns its blobref and size.
 func ReceiveString(ctx context.Context, dst BlobReceiver, s string) (blob.SizedRef, error) {
@@ -49,7 +53,7 @@ func ReceiveNoHash(ctx context.Context, dst BlobReceiver, br blob.Ref, src io.Re
 }
 
 func receive(ctx context.Context, dst BlobReceiver, br blob.Ref, src io.Reader, checkHash bool) (sb blob.SizedRef, err error) {
-	src = io.LimitReader(src, MaxBlobSize)
+	src = &sizeLimitReader{io.LimitedReader{R: src, N: MaxBlobSize + 1}}
 	if checkHash {
 		h := br.Hash()
 		if h == nil {
@@ -66,6 +70,26 @@ func receive(ctx context.Context, dst BlobReceiver, br blob.Ref, src io.Reader, 
 	}
 	err = GetHub(dst).NotifyBlobReceived(sb)
 	return
+}
+
+// sizeLimitReader passes on at most MaxBlobSize bytes of its source.
+// Unlike io.LimitReader it does not report EOF at the limit: if the
+// source turns out to be larger, the read fails with ErrBlobTooLarge,
+// so that a too large blob is rejected rather than stored truncated.
+type sizeLimitReader struct {
+	lr io.LimitedReader // N starts at MaxBlobSize+1
+}
+
+func (l *sizeLimitReader) Read(p []byte) (n int, err error) {
+	n, err = l.lr.Read(p)
+	if l.lr.N <= 0 {
+		// The source had a byte beyond MaxBlobSize; don't pass it on.
+		if n > 0 {
+			n--
+		}
+		return n, ErrBlobTooLarge
+	}
+	return n, err
 }
 
 // checkHashReader is an io.Reader that wraps the src Reader but turns
